@@ -166,6 +166,11 @@ func runC02(c *Ctx) {
 						}
 						return Descend
 					})
+					if !srcOK {
+						// the file name may be handed in by the caller next to the file itself: then every caller
+						// must pass f.Name() of the very file it passes
+						srcOK = nameOfFileAtAllCallers(p, fn, Unwrap(pb.src), W)
+					}
 					if srcOK && ci.Block().Dominates(b) {
 						fed = true
 					}
@@ -850,4 +855,55 @@ func mentionsDirection(v ssa.Value) bool {
 	}
 	walk(v, 0)
 	return found
+}
+
+// nameOfFileAtAllCallers: name and file are parameters of fn, and at every static call site of fn the argument for
+// name derives from (*os.File).Name() of the argument for file.
+func nameOfFileAtAllCallers(p *Prog, fn *ssa.Function, name, file ssa.Value) bool {
+	np, ok1 := name.(*ssa.Parameter)
+	fp, ok2 := file.(*ssa.Parameter)
+	if !ok1 || !ok2 || np.Parent() != fn || fp.Parent() != fn {
+		return false
+	}
+	ni, fi := -1, -1
+	for i, prm := range fn.Params {
+		if prm == np {
+			ni = i
+		}
+		if prm == fp {
+			fi = i
+		}
+	}
+	if ni < 0 || fi < 0 {
+		return false
+	}
+	n := 0
+	for _, caller := range p.RepoFuncs(productPkg) {
+		for _, b := range caller.Blocks {
+			for _, in := range b.Instrs {
+				cc := AsCall(in)
+				if cc == nil || cc.StaticCallee() != fn {
+					continue
+				}
+				n++
+				args := cc.Args
+				if ni >= len(args) || fi >= len(args) {
+					return false
+				}
+				fileArg := Unwrap(args[fi])
+				good := false
+				p.LeavesNoFields(args[ni], func(v ssa.Value) FlowAct {
+					if call, _, ok := CallResult(v); ok && CalleeName(call.Common()) == "(*os.File).Name" && (Unwrap(call.Call.Args[0]) == fileArg || SameVar(call.Call.Args[0], fileArg)) {
+						good = true
+						return Stop
+					}
+					return Descend
+				})
+				if !good {
+					return false
+				}
+			}
+		}
+	}
+	return n > 0
 }
